@@ -66,6 +66,8 @@ PROPS = {
     "C20": dict(lanes=L(["rel", "dbg"])),
     "C21": dict(lanes=L(["rel", "dbg"])),
     "C22": dict(lanes=L(["rel", "dbg"])),
+    "C23": dict(lanes=L(["rel", "dbg"])),
+    "C24": dict(lanes=L(["rel"]), runner="c24runner"),
     "C25": dict(lanes=L(["rel", "dbg", "asan", "miri"], ["rel", "dbg", "asan", "miri", "memcheck"])),
     "C26": dict(lanes=L(["rel", "dbg", "asan"], ["rel", "dbg", "asan", "miri"])),
     "C27": dict(lanes=L(["rel", "dbg"])),
